@@ -191,8 +191,9 @@ class Ref:
         f = self.f
         direct = (not u) or (not f.hasInterpolation()) or order > 2
         n = order
-        if direct: dx0 = 1.0 * 1e-16 ** (1 / (n + 4))
-        else: dx0 = scale * 1.0 ** (1 / (n + 4))
+        # the direct path forwards epsilon and scale like the table path (fix 4dacbfc; before it the direct path used the defaults of
+        # helpers.derivative, 1e-16 ** (1 / (n + 4)), whatever was passed)
+        dx0 = scale * 1.0 ** (1 / (n + 4))
         x = np.array(xs, dtype=float)
         return list((x + dx0) - x)
 
